@@ -18,7 +18,7 @@
                           costs, every usable cost goes through a current neighbour (or is the router's own
                           entry), no entry without a usable cost — what every history leaves behind *)
 From Coq Require Import Permutation.
-From Dv Require Import Model Spec Refresh RibFacts Net Graph Conv Final.
+From Dv Require Import Model Spec Refresh RibFacts Net Graph Conv Final Flag.
 Open Scope N_scope.
 
 (* the infinity metric and link cost the statement talks about, as translated from the source on this run *)
@@ -84,6 +84,15 @@ Theorem dv_reconverges : forall hist n evs,
   converged (run S evs) = true.
 Proof. exact reconverges_after_any_history. Qed.
 Print Assumptions dv_reconverges.
+
+(* the change flag is sound: an event (ribUpdate, dead-neighbour sweep, ...) that reports "no change" leaves every
+   router's advertisement exactly as it was — so a neighbour that fetched the advertisement at the last flagged
+   change holds the current one (the implementation-side basis of the fair-schedule assumption) *)
+Theorem change_flag_sound : forall S e i r r', net_ok S -> snd (step S e) = false ->
+  getr S i = Some r -> getr (fst (step S e)) i = Some r' ->
+  forall a, In a (advert (rrib r)) <-> In a (advert (rrib r')).
+Proof. exact step_flag_sound. Qed.
+Print Assumptions change_flag_sound.
 
 (* non-vacuity: a triangle 1-2-3 with a fourth router behind 3.  Router 4 disappears and 3 notices: the state is
    well formed and settled but not converged (1 and 2 still route to 4), three rounds later the routers are
